@@ -1,0 +1,63 @@
+//go:build verif
+
+package vm
+
+import (
+	"unsafe"
+
+	"github.com/goghcrow/yae/compiler"
+	"github.com/goghcrow/yae/parser/ast"
+	"github.com/goghcrow/yae/val"
+)
+
+// Verification hooks (build tag verif). Read-only views and an alternative
+// constructor; nothing here changes the behaviour of the package.
+
+// CompileCallThreaded is Compile with the call-threaded dispatch loop.
+func CompileCallThreaded(expr ast.Expr, env1 *val.Env) compiler.Closure {
+	bytecode := NewCompile().Compile(expr, env1)
+	return func(env *val.Env) *val.Val {
+		v := NewVM()
+		v.interp = callThreading
+		return v.Interp(bytecode, env)
+	}
+}
+
+// VerifProgram is a read-only view of one compiled program.
+type VerifProgram struct {
+	Code  []byte
+	Pool  []interface{}
+	Names []string // opcode value -> name, len == number of opcodes
+}
+
+// VerifCompile compiles expr and returns the emitted code and constant pool.
+func VerifCompile(expr ast.Expr, env1 *val.Env) *VerifProgram {
+	b := NewCompile().Compile(expr, env1)
+	names := make([]string, int(_END_))
+	for i := 0; i < int(_END_); i++ {
+		names[i] = opcode(i).String()
+	}
+	code := make([]byte, len(b.code))
+	copy(code, b.code)
+	pool := make([]interface{}, len(b.data))
+	copy(pool, b.data)
+	return &VerifProgram{Code: code, Pool: pool, Names: names}
+}
+
+// VerifThunkCode returns the code of a thunk constant. It must only be called
+// on constants that feed OP_CALL_BY_NEED (the same cast the VM performs).
+func VerifThunkCode(c *val.Val) []byte {
+	t := (*thunkVal)(unsafe.Pointer(c))
+	code := make([]byte, len(t.bytecode.code))
+	copy(code, t.bytecode.code)
+	return code
+}
+
+// VerifIsThunk reports whether a function-typed constant is a VM thunk
+// (zero parameters, named "thunk"); used before VerifThunkCode.
+func VerifIsThunk(c *val.Val) bool {
+	if c == nil || c.Type == nil {
+		return false
+	}
+	return c.Type.Kind.String() == "fun" && c.Type.Fun().Name == "thunk" && len(c.Type.Fun().Param) == 0
+}
